@@ -480,6 +480,9 @@ class BodyPartReader:
         # The body part must has Content-Length header with proper value.
         assert self._length is not None, "Content-Length required for chunked read"
         chunk_size = min(size, self._length - self._read_bytes)
+        if self._read_bytes > self._length:
+            # readline() went past the Content-Length; read(-1) is "up to EOF".
+            raise ValueError("Reader did not read all the data or it is malformed")
         chunk = await self._content.read(chunk_size)
         if self._content.at_eof():
             self._at_eof = True
